@@ -7,7 +7,7 @@ import leafgen as lg
 import treegen as tg
 
 ID = 'C06'
-GEN = ['kernels']
+GEN = ['kernels', 'constraints']
 PROPS = 'Props/C06.v'
 MODEL_VO = ['Model/Tree.v']
 SHARD = 60
